@@ -290,6 +290,9 @@ def run(ctx: Ctx):
                 if isinstance(src, ast.Call) and (dotted(src.func) or "").split(".")[-1] in pairgens:
                     ctx.ok("flag-covers-value", {"function": fname, "delegates_to": dotted(src.func)})
                     continue
+                if _pair_stream(m, fn, src, pairgens, 0):
+                    ctx.ok("flag-covers-value", {"function": fname, "delegates_to": "chain of pair generators"})
+                    continue
                 if isinstance(src, ast.Call) and _table_of_pairgens(m, fn, src.func, pairgens):
                     ctx.ok("flag-covers-value", {"function": fname, "delegates_to": "table:" + ast.unparse(src.func)[:40]})
                     continue
@@ -307,10 +310,22 @@ def run(ctx: Ctx):
                         guard_ok = False
                         p = m.parents.get(m.parents.get(n))
                         while p is not None and p is not fn:
-                            if isinstance(p, ast.If) and isinstance(p.test, ast.Compare) and isinstance(p.test.ops[0], ast.In) \
-                                    and isinstance(p.test.comparators[0], (ast.List, ast.Tuple)):
-                                names = {e.value for e in p.test.comparators[0].elts if isinstance(e, ast.Constant)}
-                                guard_ok = names <= set(RELABEL_EXCEPTION[1])
+                            if isinstance(p, ast.If) and isinstance(p.test, ast.Compare) and isinstance(p.test.ops[0], ast.In):
+                                coll = p.test.comparators[0]
+                                if isinstance(coll, ast.Name):
+                                    # a hoisted module-level constant collection
+                                    cname_ = coll.id
+                                    for st_ in m.tree.body:
+                                        if isinstance(st_, (ast.Assign, ast.AnnAssign)) and getattr(st_, "value", None) is not None:
+                                            tg_ = st_.targets if isinstance(st_, ast.Assign) else [st_.target]
+                                            if any(isinstance(t_, ast.Name) and t_.id == cname_ for t_ in tg_):
+                                                coll = st_.value
+                                    if isinstance(coll, ast.Call) and dotted(coll.func) in ("frozenset", "tuple", "set", "list") \
+                                            and len(coll.args) == 1:
+                                        coll = coll.args[0]
+                                if isinstance(coll, (ast.List, ast.Tuple, ast.Set)):
+                                    names = {e.value for e in coll.elts if isinstance(e, ast.Constant)}
+                                    guard_ok = names <= set(RELABEL_EXCEPTION[1])
                             p = m.parents.get(p)
                         ctx.check(guard_ok, "relabel-exception-guarded", f"{fname}:relabel",
                                   "values are relabelled True outside the LSPAny/LSPObject/LSPArray exception", P_TD, n.lineno)
@@ -514,6 +529,40 @@ def _testdata_flatten(ctx: Ctx):
             ctx.check(exp.get(k) == got.get(k), "vectors-use-nearest-declaration", f"struct={sname} prop={k}",
                       f"testdata get_all_properties gives {sname}.{k} the declaration of {got.get(k)!r}; the nearest one is "
                       f"{exp.get(k)!r}: vectors are generated (and labelled) against the wrong property type", flatten.P_TD, None)
+
+
+def _pair_stream(m, fn, e, pairgens, level, depth=0) -> bool:
+    """Is `e` a stream of (flag, value) pairs exactly as pair generators of this module produced them (level 0), or a
+    collection of such streams (level 1)?  Only re-packaging is accepted: list()/iter()/tuple() copies, itertools.chain,
+    comprehensions whose element is itself such a stream, names bound to those."""
+    if depth > 6:
+        return False
+    if isinstance(e, ast.Call):
+        d = dotted(e.func) or ""
+        if level == 0 and d.split(".")[-1] in pairgens:
+            return True
+        if d in ("list", "tuple", "iter") and len(e.args) == 1 and not e.keywords:
+            return _pair_stream(m, fn, e.args[0], pairgens, level, depth + 1)
+        if level == 0 and d in ("itertools.chain", "chain") and e.args and not e.keywords:
+            return all(_pair_stream(m, fn, a.value, pairgens, 1, depth + 1) if isinstance(a, ast.Starred)
+                       else _pair_stream(m, fn, a, pairgens, 0, depth + 1) for a in e.args)
+        if level == 0 and d in ("itertools.chain.from_iterable", "chain.from_iterable") and len(e.args) == 1:
+            return _pair_stream(m, fn, e.args[0], pairgens, 1, depth + 1)
+        return False
+    if level == 1 and isinstance(e, (ast.ListComp, ast.GeneratorExp)) and all(not g.ifs for g in e.generators):
+        return _pair_stream(m, fn, e.elt, pairgens, 0, depth + 1)
+    if level == 1 and isinstance(e, (ast.List, ast.Tuple)) and e.elts:
+        return all(_pair_stream(m, fn, x, pairgens, 0, depth + 1) for x in e.elts)
+    if isinstance(e, ast.Name):
+        defs = [st.value for st in ast.walk(fn) if isinstance(st, ast.Assign)
+                and any(isinstance(t, ast.Name) and t.id == e.id for t in st.targets)]
+        others = [st for st in ast.walk(fn) if isinstance(st, (ast.AugAssign, ast.For, ast.comprehension))
+                  and any(isinstance(t, ast.Name) and t.id == e.id for t in ast.walk(st.target))]
+        mutated = [c for c in ast.walk(fn) if isinstance(c, ast.Call) and isinstance(c.func, ast.Attribute)
+                   and isinstance(c.func.value, ast.Name) and c.func.value.id == e.id
+                   and c.func.attr in ("append", "extend", "insert", "sort", "reverse", "pop", "remove")]
+        return bool(defs) and not others and not mutated and all(_pair_stream(m, fn, v, pairgens, level, depth + 1) for v in defs)
+    return False
 
 
 def _table_of_pairgens(m, fn, callee, pairgens) -> bool:
